@@ -148,13 +148,16 @@ inline bool Futex::Awaitable::await_suspend(
   node->id = id;
   node->promise = &handle.promise();
   node->handle = handle;
+  // Once the node is published this coroutine can be resumed and the awaitable
+  // destroyed by another thread: take the callback out first
+  auto on_suspend = ::std::move(_on_suspend);
   auto success = _futex->add_awaiter(node, _expected_value);
   if (!success) {
     // Not suspended: nobody else knows the id, give the slot back
     box.take_released(id);
     box.finish_released(id);
-  } else if (_on_suspend) {
-    _on_suspend({id});
+  } else if (on_suspend) {
+    on_suspend({id});
   }
   return success;
 }
